@@ -496,6 +496,55 @@ var scenarios = []scenario{
 		r2 := rOpen(c, "o1", 11, "b", 1, "UNCHECKED")
 		x.do(r2)
 	}},
+	{"open-owner-with-open-file-is-never-unused", func(x *sc) {
+		// An open-owner whose last request was a CLOSE but that still has
+		// files open is not forgotten, however long it sends no
+		// sequenced request, as long as its client keeps the lease.
+		c := x.client(1, 1)
+		keepAlive := func(reads ...Req) {
+			for i := 0; i < 4; i++ {
+				x.e.tick(4)
+				if i%2 == 0 || len(reads) == 0 {
+					x.do(rRenew(c))
+				} else {
+					for _, r := range reads {
+						x.do(r)
+					}
+				}
+			}
+		}
+		// o1: two files, one is closed, one stays open
+		a := x.openc(c, "o1", 1, "a", 3)
+		b, _ := x.e.do(rOpen(c, "o1", 3, "b", 3, "UNCHECKED"))
+		x.do(rSid("CLOSE", a.Fh, a.T, a.Q, 4))
+		// o2: three files and a lock-owner file on one of those that stay open
+		p := x.openc(c, "o2", 1, "a", 1)
+		q, _ := x.e.do(rOpen(c, "o2", 3, "b", 3, "UNCHECKED"))
+		r, _ := x.e.do(rOpen(c, "o2", 4, "c", 2, "UNCHECKED"))
+		l := x.do(rLockNew(q.Fh, q.T, q.Q, 5, c, "l1", 1, "W", 0, 2))
+		x.do(rSid("CLOSE", p.Fh, p.T, p.Q, 6))
+		// o3: its only file is closed (control: this one is forgotten)
+		u := x.openc(c, "o3", 1, "c", 1)
+		x.do(rSid("CLOSE", u.Fh, u.T, u.Q, 3))
+		keepAlive(rIO("READ", b.Fh, "reg", b.T, b.Q, false))
+		// 16 ticks later, lease renewed every 4: everything that is open still is
+		x.do(rIO("READ", b.Fh, "reg", b.T, b.Q, false))
+		x.do(rIO("WRITE", q.Fh, "reg", q.T, q.Q, false))
+		x.do(rIO("WRITE", q.Fh, "reg", l.T, l.Q, false))
+		x.do(rIO("WRITE", r.Fh, "reg", r.T, r.Q, false))
+		x.do(rLockt(q.Fh, c, "l2", "W", 0, nPos)) // l1's lock is still there
+		x.do(rSid("CLOSE", a.Fh, a.T, a.Q, 4))    // o1 sent nothing since: still a retransmission of its CLOSE
+		x.do(rSid("CLOSE", u.Fh, u.T, u.Q, 3))    // o3 is gone, its closed state id with it
+		n, _ := x.e.do(rOpen(c, "o3", 4, "c", 1, "NOCREATE"))
+		x.do(rSid("OPEN_CONFIRM", n.Fh, n.T, n.Q, 5)) // o3 has to be confirmed again
+		// the open-owners go on where they were
+		x.do(rSid("CLOSE", b.Fh, b.T, b.Q, 5))
+		x.do(rLock(q.Fh, l.T, l.Q, 2, "W", 3, 4))
+		keepAlive()
+		x.do(rIO("WRITE", r.Fh, "reg", r.T, r.Q, false))
+		x.do(rSid("CLOSE", q.Fh, q.T, q.Q, 7))
+		x.do(rSid("CLOSE", r.Fh, r.T, r.Q, 8))
+	}},
 	{"foreign-lock-owner", func(x *sc) {
 		// an open state id is honoured only for lock-owners of the client it was issued to
 		c1, c2 := x.client(1, 1), x.client(2, 1)
@@ -587,9 +636,9 @@ var scenarios = []scenario{
 		rp.Gate = true
 		_, id := x.e.do(rp)
 		rp.Gate = false
-		x.do(rp)                                                 // retransmission: waits
-		x.do(rp)                                                 // and another one
-		x.do(rIO("READ", a.Fh, "reg", a.T, a.Q, false))          // I/O does not wait
+		x.do(rp)                                                  // retransmission: waits
+		x.do(rp)                                                  // and another one
+		x.do(rIO("READ", a.Fh, "reg", a.T, a.Q, false))           // I/O does not wait
 		x.do(rLockNew(b.Fh, b.T, b.Q, 3, c2, "l1", 1, "W", 0, 2)) // other clients are served
 		x.e.tick(6)
 		x.do(rRenew(c2))
